@@ -77,22 +77,25 @@ OUTSIDE = [
     "schedulers other than the synchronous one, the array-expression backend",
 ]
 BOUNDS = {
-    "quick": dict(construct="1-d length 0..3, every chunking into <= 3 chunks (size-0 chunks anywhere), every mask, fill value in {None, 9}, nomask",
-                  makers="1-d length 0..3, every chunking into <= 3 chunks, 2 data patterns x 3 mask patterns, thresholds {0, 2}, intervals (1,2) (2,1) (3,3); "
-                         "2-d shapes (2,2) (2,3) (1,2) with <= 2 chunks per axis (sizes >= 1), 4 mask patterns, scalar / row / full-array thresholds",
-                  elementwise="1-d length 0..3, <= 2 chunks, every mask of the first operand, second operand chunked the same / reversed / in one chunk; 2-d as above with "
-                              "broadcasting against a masked row, a scalar and np.ma.masked-free plain arrays; 12 operators + where",
-                  reduce="1-d length 1..3 with <= 3 chunks and length 4 with <= 2 chunks, every mask, nomask; 2-d shapes (2,2) (2,3) (3,2) (1,3), <= 2 chunks per axis, 7 mask "
-                         "patterns; 2-d with empty chunks: shapes (2,2) (1,2), <= 2 chunks per axis (sum / prod / mean / any / all / count); split_every {None, 2, dict}",
-                  average="1-d length 1..3, <= 3 chunks, every mask; 2-d shapes (2,2) (2,3), 5 mask patterns; weights none / 1-d / full, returned, keepdims",
-                  structure="1-d length 0..3, <= 3 chunks, every mask: concatenate / stack / slices / rechunk; 2-d (2,2) (2,3): both axes, transpose, reshape; "
-                            "assignment of np.ma.masked through slices, integers and boolean arrays"),
-    "thorough": dict(construct="length 0..4 with <= 3 chunks and 0..3 with <= 4 chunks", makers="1-d length 0..4 / <= 4 chunks; 2-d additionally (3,2) (2,1,2), <= 3 chunks per axis for (2,2)",
+    "quick": dict(construct="1-d length 0..3, every chunking into <= 2 chunks (size-0 chunks anywhere), every mask, fill value in {None, 9}, nomask",
+                  makers="1-d length 0..3, every chunking into <= 2 chunks, 3 mask patterns, thresholds {0, 2}, intervals (1,2) (2,1) (3,3), array thresholds; 2-d shapes (2,2) (2,3) "
+                         "with <= 2 chunks per axis (sizes >= 1), 4 mask patterns, scalar / row / full-array thresholds; NaN / inf data for masked_invalid / fix_invalid",
+                  elementwise="1-d length 0..3, <= 2 chunks, every mask of the first operand, second operand chunked the same / reversed / in one chunk (alternating); 2-d shapes (2,2) "
+                              "(2,3) (1,2), 5 mask patterns, broadcasting against a masked row / masked column / scalar; 12 operators, neg, abs, &, ma.where",
+                  reduce="1-d length 1..3 with <= 3 chunks and length 4 with <= 2 chunks, every mask, nomask; 2-d shapes (2,2) (2,3) (3,2) (1,3), <= 2 chunks per axis, 5 mask "
+                         "patterns; 2-d with empty chunks: shapes (2,2) (1,2), <= 2 chunks per axis, 4 mask patterns (no min / max); axis None / each / (0,1), keepdims, "
+                         "split_every {None, 2, dict}",
+                  average="1-d length 1..3, <= 2 chunks, every mask; 2-d shapes (2,2) (2,3), 5 mask patterns; weights none / 1-d / full, returned, keepdims; nonzero / where(cond)",
+                  structure="1-d length 0..3 with <= 2 chunks and 0..2 with <= 3 chunks, every mask, length 4 with <= 2 chunks and 4 mask patterns: concatenate / stack / every slice [a:b] / steps / rechunk / fancy index / reshape; "
+                            "2-d (2,2) (2,3): all axes, block, transpose, reshape",
+                  assign="1-d length 1..3, <= 2 chunks, 2 mask patterns, 3 key patterns: slices, integer, integer list, numpy / dask boolean key"),
+    "thorough": dict(construct="length 0..4 with <= 3 chunks", makers="1-d length 0..4 / <= 3 chunks (2 data patterns) and 0..3 / <= 4 chunks; 2-d additionally (1,2) (3,2) (2,1,2), <= 3 chunks per axis for (2,2)",
                      elementwise="1-d length 0..4 with <= 3 chunks; 2-d additionally (3,2) (2,1,2)",
-                     reduce="1-d length 1..4 with <= 3 chunks, length 5 with <= 3 chunks of a mask-pattern table, length 1..3 with <= 4 chunks; 2-d additionally (3,3) (2,1,2) (2,2,2), every mask of (2,2) "
-                            "and (2,3), <= 3 chunks per axis for (2,2) (2,3); empty chunks for (2,3) (3,1)",
+                     reduce="1-d length 1..4 with <= 3 chunks, length 5 with <= 3 chunks and 7 mask patterns, length 1..3 with <= 4 chunks; 2-d / 3-d additionally (3,3) (2,1,2) (2,2,2), 7 mask "
+                            "patterns, every mask of (2,2) and (2,3), <= 3 chunks per axis for (2,2) (2,3); empty chunks additionally for (2,3) (3,1), 7 mask patterns",
                      average="1-d length 1..4, <= 3 chunks; 2-d additionally (3,2) (2,1,2), every mask of (2,2)",
-                     structure="1-d length 0..4; 2-d additionally (3,2), <= 3 chunks per axis for (2,2)"),
+                     structure="1-d length 0..4, <= 3 chunks; 2-d additionally (3,2), <= 3 chunks per axis for (2,2)",
+                     assign="length 1..3, <= 3 chunks, every mask, every boolean key"),
 }
 
 # ----------------------------------------------------------------------------------------------------------------------------------
@@ -120,6 +123,12 @@ OPEN_REGIONS = {
         "block mask=nomask (arithmetic keeps the empty mask array), the reduction of that block is an unmasked identity and the aggregate of [identity, masked] is "
         "unmasked. Reproduction: xm = np.ma.masked_array([1, 2], mask=[1, 1]); (da.from_array(xm, chunks=((0, 2),)) > 0).any().compute() -> False, "
         "(xm > 0).any() -> masked (chunks=((2,),) gives masked)",
+    "fancy_index_fill_value_lost":
+        "indexing a masked array that has an explicit fill value with an integer list / array loses the fill value (numpy.ma: xm[[3, 0]] keeps it) whenever an output "
+        "chunk draws from two input chunks: dask/array/_shuffle.py concatenate_arrays applies take_lookup = np.take (dask/array/backends.py registers plain np.take "
+        "for np.ma.masked_array), and np.take / MaskedArray.take reset the fill value to the default, so da.ma.filled(x[idx]) fills with 999999. Reproduction: "
+        "xm = np.ma.masked_array([1, 0, 3, 2], mask=[1, 0, 0, 0], fill_value=9); da.ma.filled(da.from_array(xm, chunks=2)[[3, 0]]).compute() -> [2, 999999], "
+        "np.ma.filled(xm[[3, 0]]) -> [2, 9] (chunks=4 gives [2, 9])",
     "setitem_boolarray_masked":
         "x[key] = np.ma.masked (documented in docs/source/array-assignment.rst) with a boolean dask ARRAY key of x's shape: Array.__setitem__ takes the "
         "`where(key, value, self)` shortcut, np.where is not mask-aware, so the result is a PLAIN array with the masked scalar's fill value written into the data "
@@ -850,11 +859,13 @@ def mk_average_nd(shapes, K, allbits=()):
 
 # ---------------------------------------------------------------------------------------------------------------------------------- (6) structure
 
-def mk_structure(N, K):
+def mk_structure(N, K, nmin=0, masks="all"):
     def setup(e):
-        return declare_1d(e, N, K)
+        n, ch, m, nomask, fv = declare_1d(e, N, K, nmin=nmin, masks=masks)
+        # (broad region: the fill value is lost when an output chunk of the fancy index draws from two input chunks)
+        return n, ch, m, nomask, fv, region(e, "fancy_index_fill_value_lost", fv is not None and n >= 2 and len(ch[0]) > 1 and not degenerate(ch))
 
-    def run(e, n, ch, m, nomask, fv):
+    def run(e, n, ch, m, nomask, fv, in_take):
         x = data((n,))
         xm = ref_masked(x, m, nomask, fv)
         x2 = data((n,), "mixed2") + 4
@@ -862,6 +873,7 @@ def mk_structure(N, K):
         xm2 = np.ma.masked_array(x2, mask=m2, fill_value=fv)
         ch2 = (ch[0][::-1],)
         out = Batch(e, _info(x, m, nomask, fv, ch), explicit_fv=fv is not None)
+        late = Batch(e, _info(x, m, nomask, fv, ch), explicit_fv=fv is not None)
         via = via_of(m, ch)
         d, d2, dp = dmasked(x, m, nomask, fv, ch, via), dmasked(x2, m2, False, fv, ch2, 1 - via), darr(x2, ch2)
         out.add("concatenate([masked, masked, masked])", lambda: da.concatenate([d, d2, d]), lambda: np.ma.concatenate([xm, xm2, xm]))
@@ -883,16 +895,20 @@ def mk_structure(N, K):
                 out.add("[::-1]", lambda: d[::-1], lambda: xm[::-1], fv=True)
             if n:
                 out.add("[n-1]", lambda: d[n - 1], lambda: xm[n - 1:n].reshape(()))
-                out.add("[[n-1, 0]]", lambda: d[[n - 1, 0]], lambda: xm[[n - 1, 0]], fv=True)
+                out.add("[[n-1, 0]]", lambda: d[[n - 1, 0]], lambda: xm[[n - 1, 0]])
+                (late if in_take else out).add("[[n-1, 0]] with its fill value", lambda: d[[n - 1, 0]], lambda: xm[[n - 1, 0]], fv=True)
                 out.add("sum of a slice", lambda: d[n // 2:].sum(), lambda: xm[n // 2:].sum())
         out.add("[None, :]", lambda: d[None, :], lambda: xm[None, :], fv=True)
         if not degenerate(ch):
             out.add("reshape(1, n)", lambda: d.reshape((1, n)), lambda: xm.reshape((1, n)), fv=True)
         out.add("map_blocks(identity)", lambda: d.map_blocks(lambda b: b, dtype=d.dtype), lambda: xm, fv=True)
         out.add("persisted copy", lambda: (d + 0).copy(), lambda: xm + 0, fv=True)
-        return out.finish()
+        obs = out.finish()
+        if not (SKIP_OPEN and "fancy_index_fill_value_lost" in OPEN_REGIONS):
+            obs += late.finish()          # LAST on the path: inside the region of the open finding
+        return obs + [in_take]
 
-    return ob(f"structure[n<={N},chunks<={K}]", setup, run)
+    return ob(f"structure[n={nmin}..{N},chunks<={K}]", setup, run)
 
 
 def mk_structure_nd(shapes, K):
@@ -922,7 +938,7 @@ def mk_structure_nd(shapes, K):
         out.add("[1:, :2]", lambda: d[1:, :2], lambda: xm[1:, :2], fv=True)
         out.add("[::2, -1]", lambda: d[::2, -1], lambda: xm[::2, -1], fv=True)
         out.add("[:, ::-1]", lambda: d[:, ::-1], lambda: xm[:, ::-1], fv=True)
-        out.add("[[1, 0]]", lambda: d[[shape[0] - 1, 0]], lambda: xm[[shape[0] - 1, 0]], fv=True)
+        out.add("[[1, 0]]", lambda: d[[shape[0] - 1, 0]], lambda: xm[[shape[0] - 1, 0]])
         out.add("reshape(-1)", lambda: d.reshape(-1), lambda: xm.reshape(-1), fv=True)
         out.add("sum of a slice", lambda: d[:, 1:].sum(axis=1), lambda: xm[:, 1:].sum(axis=1))
         return out.finish()
@@ -978,18 +994,18 @@ def obligations(tier):
             mk_reduce(3, 3), mk_reduce(4, 2, nmin=4), mk_reduce_nd([(2, 2), (2, 3), (3, 2), (1, 3)], 2, masks=MASKS_ND[:5]),
             mk_reduce_nd([(2, 2), (1, 2)], 2, zero=True, masks=("none", "all", "row0", "last")),
             mk_average(3, 2), mk_average_nd([(2, 2), (2, 3)], 2),
-            mk_structure(3, 2), mk_structure(2, 3), mk_structure_nd([(2, 2), (2, 3)], 2),
+            mk_structure(3, 2), mk_structure(2, 3), mk_structure(4, 2, nmin=4, masks=("none", "checker", "last", "all")), mk_structure_nd([(2, 2), (2, 3)], 2),
             mk_assign(3, 2),
         ]
     S3 = [(2, 2), (2, 3), (1, 2), (3, 2), (2, 1, 2)]
     return [
-        mk_construct(4, 3), mk_construct(3, 4),
+        mk_construct(4, 3),
         mk_makers(4, 3, KINDS=("mixed", "mixed2")), mk_makers(3, 4), mk_makers_nd(S3, 2), mk_makers_nd([(2, 2)], 3),
-        mk_elementwise(4, 3, derived=False), mk_elementwise_nd(S3, 2),
+        mk_elementwise(4, 3), mk_elementwise_nd(S3, 2),
         mk_reduce(4, 3), mk_reduce(3, 4), mk_reduce(5, 3, nmin=5, masks=MASKS_ND),
         mk_reduce_nd([(2, 2), (2, 3), (3, 2), (1, 3), (3, 3), (2, 1, 2), (2, 2, 2)], 2), mk_reduce_nd([(2, 2), (2, 3)], 3), mk_reduce_nd([(2, 2), (2, 3)], 2, allbits=((2, 2), (2, 3))),
         mk_reduce_nd([(2, 2), (1, 2), (2, 3), (3, 1)], 2, zero=True),
         mk_average(4, 3), mk_average_nd([(2, 2), (2, 3), (3, 2), (2, 1, 2)], 2), mk_average_nd([(2, 2)], 2, allbits=((2, 2),)),
         mk_structure(4, 3), mk_structure_nd([(2, 2), (2, 3), (3, 2)], 2), mk_structure_nd([(2, 2)], 3),
-        mk_assign(4, 3, masks="all", keys="all"),
+        mk_assign(3, 3, masks="all", keys="all"),
     ]
